@@ -293,3 +293,90 @@ def dof_by_entity(ctx):
             same_block = any(c.target == unparse(s.vnode) and c.guards == s.guards and c.loops == s.loops and c.node.lineno > s.node.lineno for c in cnts)
             fresh = fresh and same_block
         r.check(fresh, "RWG edge dofs are fresh counter values (injective)", MS, fn.name, est[0].node.lineno if est else fn.lineno, "rwg dof numbering", "an edge dof is not the running counter incremented right after the assignment")
+
+
+def builder_chains(fn):
+    """[(grid argument, {setter: argument node}, build call)] of every SpaceBuilder(...).set_x(...)...build() chain."""
+    out = []
+    for n in ast.walk(fn):
+        if isinstance(n, ast.Call) and isinstance(n.func, ast.Attribute) and n.func.attr == "build":
+            d, cur = {}, n.func.value
+            while isinstance(cur, ast.Call) and isinstance(cur.func, ast.Attribute):
+                d[cur.func.attr] = cur.args[0] if cur.args else None
+                cur = cur.func.value
+            if isinstance(cur, ast.Call) and unparse(cur.func) == "SpaceBuilder" and cur.args:
+                out.append((cur.args[0], d, n))
+    return out
+
+
+# what each returned local of a dof-map builder is, by its name (the builders return bare tuples)
+_ROLE_WORDS = (("local2global", "set_local2global"), ("multipliers", "set_local_multipliers"), ("support", "set_support"))
+
+
+def builder_roles(ctx):
+    """Constructor plumbing of the primal spaces: support and normal multipliers come from the same
+    _process_segments(grid, support_elements, segments, swapped_normals) call; the three tables of a continuous space
+    come from ONE call of its dof-map builder, each setter receiving the returned value of its own kind; all spaces
+    with the same identifier use the same evaluator, codomain dimension and order."""
+    DS = "bempp_cl/api/space/scalar_dual_spaces.py"
+    r = ctx.rule("BUILDER-ROLES", "space constructors: support / normal multipliers from one _process_segments call on the caller's arguments; dof-map tables from one builder call, each to the setter of its kind; one evaluator, dimension and order per identifier", 8)
+    by_ident = {}
+    n = 0
+    for rel in (SS, DS, MS):
+        m = ctx.repo.mod(rel)
+        for qn, fn in m.functions.items():
+            if "." in qn or "<" in qn:
+                continue
+            cs = builder_chains(fn)
+            if len(cs) != 1:
+                continue
+            g, d, node = cs[0]
+            defs = roles.Defs(fn)
+            can = {k: (roles.canon(v, defs).replace(" ", "") if v is not None else None) for k, v in d.items()}
+            ident = can.get("set_identifier")
+            by_ident.setdefault(ident, []).append((rel, qn, node.lineno, can))
+            gg = roles.canon(g, defs).replace(" ", "")
+            if gg.endswith(".barycentric_refinement"):
+                continue  # barycentric constructors: rule BARY-INHERIT
+            n += 1
+            pa = arg_names(fn)
+            bad = []
+            seg = "_process_segments(%s,support_elements,segments,swapped_normals)" % pa[0] if {"support_elements", "segments", "swapped_normals"} <= set(pa) else None
+            if seg is None:
+                bad.append("constructor lacks the support_elements / segments / swapped_normals arguments")
+            else:
+                if can.get("set_normal_multipliers") != seg + "[1]":
+                    bad.append("normal multipliers are `%s`, expected %s[1]" % ((can.get("set_normal_multipliers") or "")[:80], seg))
+                sup = can.get("set_support") or ""
+                mcall = re.match(r"(_compute_\w+)\((.*)\)\[(\d+)\]$", sup)
+                if sup == seg + "[0]":
+                    pass
+                elif mcall:
+                    callee = m.fn(mcall.group(1)) if m.has_fn(mcall.group(1)) else None
+                    rets = [s for s in callee.body if isinstance(s, ast.Return)] if callee else []
+                    if not callee or len(rets) != 1 or not isinstance(rets[0].value, ast.Tuple):
+                        bad.append("dof-map builder %s does not return a tuple" % mcall.group(1))
+                    else:
+                        names = [unparse(e) for e in rets[0].value.elts]
+                        for word, setter in _ROLE_WORDS:
+                            got = can.get(setter) or ""
+                            mm = re.match(r"%s\((.*)\)\[(\d+)\]$" % re.escape(mcall.group(1)), got)
+                            if not mm or mm.group(1) != mcall.group(2):
+                                bad.append("%s does not come from the same %s call as the support" % (setter[4:], mcall.group(1)))
+                            elif word not in names[int(mm.group(2))]:
+                                bad.append("%s receives returned value #%s `%s` of %s" % (setter[4:], mm.group(2), names[int(mm.group(2))], mcall.group(1)))
+                        # the builder is fed the support of the same _process_segments call
+                        if (seg + "[0]") not in mcall.group(2):
+                            bad.append("%s is not given the support of %s" % (mcall.group(1), seg))
+                else:
+                    bad.append("support is `%s`" % sup[:80])
+            r.check(not bad, "%s::%s" % (rel.split("/")[-1], qn), rel, qn, node.lineno, "builder roles of " + qn, "; ".join(bad))
+    if n < 5:
+        raise AnalysisError("only %d primal space constructors with a SpaceBuilder chain found (p0, dp1, p1, rwg0, snc0)" % n)
+    for ident, lst in sorted(by_ident.items(), key=lambda kv: str(kv[0])):
+        if ident is None or len(lst) < 2:
+            continue
+        keys = ("set_codomain_dimension", "set_numba_evaluator")
+        ref = {k: lst[0][3].get(k) for k in keys}
+        diff = ["%s: %s=%s (vs %s in %s)" % (qn, k[4:], can.get(k), ref[k], lst[0][1]) for rel, qn, ln, can in lst[1:] for k in keys if can.get(k) != ref[k]]
+        r.check(not diff, "identifier %s (%d constructors)" % (ident, len(lst)), lst[0][0], lst[0][1], lst[0][2], "siblings with identifier %s" % ident, "; ".join(diff))
